@@ -120,6 +120,7 @@ type E struct {
 	Ok     bool     // mapget comma-ok form (two values)
 	NRes   int      // calls: number of results
 	N      int64    // choice bound
+	Lit    *Func    // funclit: the literal (lifted to a named function for the specification)
 	Line   int
 	Raw    bool // string literal printed as raw string
 }
@@ -195,6 +196,7 @@ type Prog struct {
 	Globals []*S // package-level var declarations (in source order)
 	Funcs   []*Func
 	Inits   []*Func
+	Lits    []*Func // function literals (printed inline, lifted in the flat form)
 	Main    string
 	Imports []string
 	// NeedChoice: the program reads test inputs through choice()
@@ -317,6 +319,8 @@ func (p *printer) expr(e *E) string {
 		return e.Name
 	case "fnval":
 		return e.Fn
+	case "funclit":
+		return p.funcLit(e.Lit)
 	case "bin":
 		pr := precOf[e.Op]
 		l := p.sub(e.L, pr, false)
@@ -680,6 +684,30 @@ func (p *printer) funcDecl(f *Func) {
 	p.nl()
 }
 
+// funcLit prints a function literal inline (possibly spanning several lines)
+func (p *printer) funcLit(f *Func) string {
+	q := &printer{goMode: p.goMode, line: p.line, prog: p.prog, ind: p.ind}
+	var ps []string
+	for i, n := range f.Params {
+		ps = append(ps, n+" "+f.PTypes[i].Src(p.goMode))
+	}
+	q.w("func(" + strings.Join(ps, ", ") + ") ")
+	if len(f.Results) == 1 {
+		q.w(f.Results[0].Src(p.goMode) + " ")
+	} else if len(f.Results) > 1 {
+		var rs []string
+		for _, r := range f.Results {
+			rs = append(rs, r.Src(p.goMode))
+		}
+		q.w("(" + strings.Join(rs, ", ") + ") ")
+	}
+	f.Line = q.line
+	q.block(f.Body)
+	out := q.b.String()
+	// the caller appends the text with w(), which advances its own line counter by the newlines in it
+	return out
+}
+
 func (p *printer) typeDecls(prog *Prog) {
 	for _, st := range prog.Structs {
 		p.w("type " + st.Name + " struct {")
@@ -886,7 +914,7 @@ func (f *flat) expr(e *E) int {
 		return f.add(map[string]any{"k": "var", "name": e.Name})
 	case "blank":
 		return f.add(map[string]any{"k": "blank"})
-	case "fnval":
+	case "fnval", "funclit":
 		return f.add(map[string]any{"k": "fnval", "fn": e.Fn})
 	case "bin":
 		return f.add(map[string]any{"k": "bin", "op": e.Op, "l": f.expr(e.L), "r": f.expr(e.R), "line": e.Line})
@@ -1069,6 +1097,9 @@ func (prog *Prog) Flatten() map[string]any {
 		funcs[fn.Name] = map[string]any{"params": params, "body": f.stmts(fn.Body), "nres": len(fn.Results), "variadic": fn.Variadic, "line": fn.Line}
 	}
 	for _, fn := range prog.Funcs {
+		addFunc(fn)
+	}
+	for _, fn := range prog.Lits {
 		addFunc(fn)
 	}
 	inits := []string{}
